@@ -43,10 +43,14 @@ static bool value_ok(Kind k,const std::string &val,std::string &why){ std::strin
 	case K_URI: if(scheme_of(dec,sc)){ const char *ok[]={"http","https","ftp","mailto","news","nntp"}; for(int i=0;i<6;i++) if(sc==ok[i]) return true; why="URI scheme '"+sc+"' not white-listed"; return false; } return true;
 	case K_RELURI: if(scheme_of(dec,sc)){ why="scheme in a relative-only URI"; return false;} return true;
 	case K_ABSURI_HTTP: if(!scheme_of(dec,sc)){ why="no scheme in an absolute-only URI"; return false;} if(sc!="http"&&sc!="https"){ why="URI scheme '"+sc+"' not white-listed"; return false;} return true; } return false; }
+// numeric character reference: 1 = denotes an allowed code point, 0 = does not, 2 = not demanded either way (low surrogates, see DESIGN.md)
+// The digits are evaluated with arbitrary precision (saturating), so a reference whose value only looks harmless modulo 2^32 or 2^64 is "not allowed".
+static int ncr_verdict(const std::string &digits,bool hex){ unsigned long long v=0; bool big=false; for(size_t i=0;i<digits.size();i++){ int d= isdigit((unsigned char)digits[i])? digits[i]-'0' : (tolower(digits[i])-'a'+10); v=v*(hex?16:10)+d; if(v>0x10FFFF){ big=true; break; } }
+	if(big) return 0; if(v>=0xDC00&&v<=0xDFFF) return 2; if(v>=0xD800&&v<=0xDBFF) return 0; if(v==0xFFFE||v==0xFFFF) return 0; if(v>=0x7F&&v<=0x9F) return 0; if(v<0x20&&!(v==9||v==10||v==13)) return 0; return 1; }
 // returns "" if every markup-opening character of y lies inside an allowed construct, else the reason
 static std::string scan(const RuleSpec &R,const std::string &y){ size_t i=0,n=y.size(); bool cs=R.xhtml;
 	while(i<n){ char c=y[i]; if(c=='>') return "bare '>' at "+std::to_string(i);
-		if(c=='&'){ size_t j=i+1; if(j<n&&y[j]=='#'){ if(!R.numeric) return "numeric entity while numeric entities are off"; j++; bool hex=false; if(j<n&&(y[j]=='x'||y[j]=='X')){ hex=true; j++; } size_t s=j; while(j<n&&(hex?isxdigit((unsigned char)y[j]):isdigit((unsigned char)y[j]))) j++; if(j==s||j>=n||y[j]!=';') return "malformed numeric entity"; i=j+1; continue; }
+		if(c=='&'){ size_t j=i+1; if(j<n&&y[j]=='#'){ if(!R.numeric) return "numeric entity while numeric entities are off"; j++; bool hex=false; if(j<n&&(y[j]=='x'||y[j]=='X')){ hex=true; j++; } size_t s=j; while(j<n&&(hex?isxdigit((unsigned char)y[j]):isdigit((unsigned char)y[j]))) j++; if(j==s||j>=n||y[j]!=';') return "malformed numeric entity"; { int v=ncr_verdict(y.substr(s,j-s),hex); if(v==0) return "numeric entity &#"+std::string(hex?"x":"")+y.substr(s,j-s)+"; does not denote an allowed code point"; } i=j+1; continue; }
 			size_t s=j; while(j<n&&isan(y[j])) j++; if(j==s||j>=n||y[j]!=';') return "bare '&' at "+std::to_string(i); std::string name=y.substr(s,j-s); bool ok=(name=="lt"||name=="gt"||name=="amp"||name=="quot"); for(size_t k=0;k<R.entities.size();k++) if(R.entities[k]==name) ok=true; if(!ok) return "entity &"+name+"; not white-listed"; i=j+1; continue; }
 		if(c!='<'){ i++; continue; }
 		// '<'
@@ -93,6 +97,16 @@ static void markup_pass(int sh,int n,int tlen,int clen,bool outcomes){ size_t nc
 static void uri_pass(int sh,int n){ const char *vals[]={"javascript:alert(1)","JaVaScRiPt:x","java\tscript:x","java&#x09;script:x"," javascript:x","&#106;avascript:x","jav&#x61;script:x","vbscript:x","data:text/html,x","http://a/b","HTTPS://a","//host/p","/p?a=1&amp;b=2","p#f","mailto:a@b","ftp://h","x:y","http:","","a b","http://a/%zz","http://[::1]/","?q","&amp;","&lt;script&gt;","'","\"","&apos;","&#39;","&#x27;","-12","12","1x","abc","ABC","a&amp;b"};
 	const char *tmpl[]={"<a href='%'>t</a>","<a href=\"%\">t</a>","<a title='%'>t</a>","<img src='%'/>","<img src='%'>","<input size='%'/>","<input checked='%'/>","<a href='%' href='x'>t</a>","<A HREF='%'>t</A>","<a href ='%'>t</a>","<a href= '%'>t</a>","<a\thref='%'>t</a>","<a href='%'title='abc'>t</a>"}; int idx=0;
 	for(size_t i=0;i<sizeof(vals)/sizeof(*vals);i++) for(size_t t=0;t<sizeof(tmpl)/sizeof(*tmpl);t++){ if((idx++%n)!=sh) continue; std::string s=tmpl[t]; size_t p=s.find('%'); s.replace(p,1,vals[i]); vf::announce("uri "+vf::hex(s)); for(size_t k=0;k<g_cfg.size();k++) one(g_cfg[k],s,true,true); vf::guard("uri_cases"); } flush(); }
+// numeric character references at and around every boundary of the allowed set, in every spelling (radix, case, leading zeros, 9..40 digits):
+// text that validates must only contain references to allowed code points; filter output likewise (through the scanner)
+static std::string to_radix(unsigned __int128 v,bool hex,bool upper){ if(v==0) return "0"; std::string r; while(v){ int d=(int)(v%(hex?16:10)); r.insert(r.begin(),(char)(d<10?'0'+d:(upper?'A':'a')+d-10)); v/=(hex?16:10); } return r; }
+static void entity_pass(int sh,int n){ std::vector<unsigned __int128> vals; for(unsigned v=0;v<=0x21;v++) vals.push_back(v); for(unsigned v=0x7D;v<=0xA1;v++) vals.push_back(v); unsigned b[]={0x3C,0x3E,0x26,0x41,0xFF,0x100,0x7FF,0x800,0xD7FF,0xD800,0xD801,0xDBFF,0xDC00,0xDFFF,0xE000,0xFFFD,0xFFFE,0xFFFF,0x10000,0x1F600,0x10FFFD,0x10FFFE,0x10FFFF,0x110000,0x110001,0x1FFFFF,0x7FFFFFFF,0x80000000u,0x80000041u,0xFFFFFFFFu}; for(size_t i=0;i<sizeof(b)/sizeof(*b);i++) vals.push_back(b[i]);
+	unsigned low[]={0x00,0x09,0x3C,0x41,0x1F600,0x10FFFF}; int sh_[]={32,33,48,63,64,65,96}; for(size_t k=0;k<sizeof(sh_)/sizeof(*sh_);k++) for(size_t i=0;i<sizeof(low)/sizeof(*low);i++){ vals.push_back(((unsigned __int128)1<<sh_[k])+low[i]); vals.push_back(((unsigned __int128)0x12345678<<sh_[k])+low[i]); } vals.push_back(((unsigned __int128)1<<63)-1); vals.push_back(((unsigned __int128)1<<64)-1); vals.push_back(~(unsigned __int128)0);
+	const char *tmpl[]={"a%b","%","<b>%</b>","<a title='%'>t</a>","%%"}; int idx=0;
+	for(size_t vi=0;vi<vals.size();vi++) for(int radix=0;radix<3;radix++) for(int zeros=0;zeros<3;zeros++) for(size_t t=0;t<sizeof(tmpl)/sizeof(*tmpl);t++){ if((idx++%n)!=sh) continue; bool hex=radix>0; std::string digits=std::string(zeros==0?0:zeros==1?1:12,'0')+to_radix(vals[vi],hex,radix==2); std::string ent="&#"+std::string(radix==0?"":radix==1?"x":"X")+digits+";"; std::string in=tmpl[t]; for(size_t p2=in.find('%');p2!=std::string::npos;p2=in.find('%',p2+ent.size())) in.replace(p2,1,ent);
+		vf::announce("entity "+vf::hex(in)); int verdict=ncr_verdict(digits,hex);
+		for(size_t k=0;k<g_cfg.size();k++){ const Cfg &c=g_cfg[k]; bool vx=xss::validate(in.data(),in.data()+in.size(),c.rules); if(vx&&(!c.spec.numeric||verdict==0)) bad("xss:numeric-entity-accepted",std::string("validate accepts a numeric character reference that ")+(c.spec.numeric?"does not denote an allowed code point":"the rules do not allow at all"),c,0,in); if(vx&&verdict==1) vf::guard("numeric_entities_accepted"); if(!vx&&c.spec.numeric&&verdict==0) vf::guard("numeric_entities_refused"); if(verdict==0&&vals[vi]>0xFFFFFFFFu) vf::guard("numeric_entities_beyond_32_bits"); one(c,in,true,t==0&&zeros==0); } }
+	flush(); }
 // encodings: byte-level tokens around markup
 static bool ref_valid_enc(const std::string &enc,const std::string &s){ if(enc=="UTF-8"){ size_t i=0; while(i<s.size()){ unsigned char a=s[i]; size_t l=0; uint32_t cp=0; const unsigned char *p=(const unsigned char*)s.data()+i; size_t n=s.size()-i;
 			#define TLX(x) ((x)>=0x80&&(x)<=0xBF)
@@ -113,10 +127,10 @@ int main(int argc,char **argv){ vf::init(argc,argv,"C04","exploration"); int n=1
 	{ std::vector<RuleSpec> s=rule_specs(); for(size_t i=0;i<s.size();i++){ Cfg c; c.spec=s[i]; c.rules=build(s[i]); g_cfg.push_back(c); } }
 	if(!vf::C().replay_file.empty()){ std::ifstream f(vf::C().replay_file); std::stringstream ss; ss<<f.rdbuf(); std::string l=ss.str(); std::string in=vf::unhex(vf::jfield(l,"input_hex")),rl=vf::jfield(l,"rules"); for(size_t k=0;k<g_cfg.size();k++) if(rl.empty()||rl==g_cfg[k].spec.label){ one(g_cfg[k],in,true,false); printf("replayed under %s: remove->%s escape->%s\n",g_cfg[k].spec.label.c_str(),vf::vis(xss::filter(in,g_cfg[k].rules,xss::remove_invalid)).c_str(),vf::vis(xss::filter(in,g_cfg[k].rules,xss::escape_invalid)).c_str()); } return vf::finish(); }
 	if(vf::C().pass=="enum"){ vf::parallel(n,n,[&](int sh){ markup_pass(sh,n,th?5:4,th?7:6,false); },1500); return vf::finish(); }
-	vf::C().rule=std::string("every sequence of <= ")+(th?"5":"4")+" tokens of a 26-token markup alphabet and every string of length <= "+(th?"7":"6")+" over {< > & ; a / = ' \" ! - # space x}, each under 6 rule sets (xhtml/html; open+close, stand-alone and any tags; boolean, integer, regex, uri, relative-uri, absolute-uri-with-scheme properties; entities; numeric entities and comments on/off; two with a declared encoding) x {remove_invalid, escape_invalid} (rel build; lengths 3/4 again under ASan); 36 attribute values x 13 tag templates; byte-token strings under UTF-8 / ISO-8859-1 / windows-1252 and UTF-16LE. distinct = (rule set, method, validity, output text); all non-trivial";
+	vf::C().rule=std::string("every sequence of <= ")+(th?"5":"4")+" tokens of a 26-token markup alphabet and every string of length <= "+(th?"7":"6")+" over {< > & ; a / = ' \" ! - # space x}, each under 6 rule sets (xhtml/html; open+close, stand-alone and any tags; boolean, integer, regex, uri, relative-uri, absolute-uri-with-scheme properties; entities; numeric entities and comments on/off; two with a declared encoding) x {remove_invalid, escape_invalid} (rel build; lengths 3/4 again under ASan); 36 attribute values x 13 tag templates; numeric character references for ~160 values at every boundary of the allowed code-point set and beyond 2^32 / 2^64 / 2^96 x {decimal, hex, HEX} x {0,1,12} leading zeros x 5 templates (a reference must be refused unless its arbitrary-precision value is an allowed code point); byte-token strings under UTF-8 / ISO-8859-1 / windows-1252 and UTF-16LE. distinct = (rule set, method, validity, output text); all non-trivial";
 	vf::assume("the lenient scanner in harness/C04 (rule sets as plain tables, browser-like scheme extraction) defines 'white-listed construct'");
-	vf::assume("what exactly is removed vs kept is not demanded, only that the result validates, is a fixed point, and contains no markup outside the white list");
+	vf::assume("allowed numeric character reference = value (arbitrary precision) <= 0x10FFFF, not a C0/C1 control other than TAB/LF/CR, not U+FFFE/U+FFFF, not a high surrogate; low surrogates U+DC00..U+DFFF are not demanded either way (the implementation accepts them)"); vf::assume("what exactly is removed vs kept is not demanded, only that the result validates, is a fixed point, and contains no markup outside the white list");
 	vf::run_sub("rel","enum");
-	vf::parallel(n,n,[&](int sh){ markup_pass(sh,n,3,4,true); uri_pass(sh,n); encoding_pass(sh,n); },1500);
-	vf::require_guard("inputs_valid"); vf::require_guard("inputs_filtered"); vf::require_guard("filtered_outputs_keeping_markup"); vf::require_guard("uri_cases"); vf::require_guard("ill_formed_inputs"); vf::require_guard("utf16_cases");
+	vf::parallel(n,n,[&](int sh){ markup_pass(sh,n,3,4,true); uri_pass(sh,n); entity_pass(sh,n); encoding_pass(sh,n); },1500);
+	vf::require_guard("inputs_valid"); vf::require_guard("inputs_filtered"); vf::require_guard("filtered_outputs_keeping_markup"); vf::require_guard("uri_cases"); vf::require_guard("ill_formed_inputs"); vf::require_guard("utf16_cases"); vf::require_guard("numeric_entities_accepted"); vf::require_guard("numeric_entities_refused"); vf::require_guard("numeric_entities_beyond_32_bits");
 	return vf::finish(); }
